@@ -32,7 +32,7 @@ PROBES = [
     ("and-zero", 4,
      "`and reg, 0` is treated as read-only: the cleared register is not written back and a later reload restores the old value"),
 ]
-ALL_FEATURES = 1023
+ALL_FEATURES = 2047
 
 
 def parse_blocks(text):
@@ -41,7 +41,7 @@ def parse_blocks(text):
     for line in text.split("\n"):
         if line.startswith("P "):
             cur = {"index": int(line.split()[1]), "head": line, "lines": [], "X": None, "U": None, "G": None, "nS": 0, "nT": 0, "ins": 0,
-                   "slot": 0, "swap": 0, "tramp": 0}
+                   "slot": 0, "swap": 0, "tramp": 0, "sa": 0, "byref": 0}
             out.append(cur)
         elif cur is None:
             continue
@@ -56,8 +56,12 @@ def parse_blocks(text):
                     cur["tramp"] += 1
             if t[2] == "swap":
                 cur["swap"] += 1
+            if t[2] == "op" and t[3].startswith("ARGTMP"):
+                cur["byref"] = 1
             if " s" in line[4:]:
                 cur["slot"] += 1
+        elif line.startswith("M "):
+            cur["sa"] = 1
         elif line.startswith("X "):
             cur["X"] = line[2:]
         elif line.startswith("U "):
@@ -113,6 +117,20 @@ def corrupt_dump(block_text, kind, rng):
             return None
         i = rng.choice(c)
         lines[i] = _re.sub(r"T - mov r0\.(\d+) ", lambda m: "T - mov r0.%d " % ((int(m.group(1)) + 1) % 16 if int(m.group(1)) != 3 else 5), lines[i], count=1)
+    elif kind == "stack-argument-through-wrong-register":
+        # a load of a stack argument goes through a register that does not hold the SA address (RaIRModel.sa_step must notice)
+        c = [i for i in tix if _re.match(r"T - mov \S+ a\d+:", lines[i])]
+        if not c:
+            return None
+        i = rng.choice(c)
+        lines[i] = _re.sub(r" a(\d+):", lambda m: " a%d:" % ((int(m.group(1)) + 1 + rng.randrange(14)) % 16), lines[i], count=1)
+    elif kind == "by-reference-copy-stored-elsewhere":
+        # the copy of a by-reference argument lands 16 bytes away from the temporary whose address is passed
+        c = [i for i in tix if _re.match(r"T - mov s-?\d+ r1\.\d+ 16 0 16", lines[i]) and i > 0 and " op ARGTMP|" in lines[i - 1]]
+        if not c:
+            return None
+        i = rng.choice(c)
+        lines[i] = _re.sub(r"T - mov s(-?\d+) ", lambda m: "T - mov s%d " % (int(m.group(1)) + 16), lines[i], count=1)
     else:
         return None
     return "\n".join(lines)
@@ -228,6 +246,28 @@ def run(ck):
         print("validator:", run_model(model, out)[1])
         return 0
 
+    # ------------------------------------------------------------------ value semantics of the tagged instructions vs the host CPU
+    # (what the idiom theorems C05_idiom_* are about): every IDIOM_SPEC mnemonic is executed on the host in its register /
+    # same-register / immediate forms at every operand size on boundary + random values; the extracted alu_sem must give the
+    # same result wherever alu_defined holds (theorem C05_idiom_verdicts_rest_on_specified_semantics: no verdict elsewhere)
+    rc, out, err = vlib.sh([impl, "alu", str(ck.seed)] + [m for m, _, _ in IDIOM_SPEC], timeout=300)
+    arc, aout, aerr = vlib.sh([model], inp=out, timeout=600)
+    alu = {"harness_rc": rc, "mnemonics": len(IDIOM_SPEC), "executions": len([l for l in out.split("\n") if l.startswith("A ")])}
+    alu_bad = [l for l in aout.split("\n") if l.startswith("AR bad")]
+    alu_unsup = [l[len("AR unsupported "):] for l in aout.split("\n") if l.startswith("AR unsupported")]
+    m = _re.search(r"AR summary compared=(\d+) unspecified=(\d+) bad=(\d+) forms=(\d+) never_compared=(\S+)", aout)
+    if m:
+        alu.update({"compared_equal": int(m.group(1)) - int(m.group(3)), "outside_specification": int(m.group(2)), "differ": int(m.group(3)),
+                    "forms": int(m.group(4)), "forms_never_compared": [] if m.group(5) == "-" else m.group(5).split(",")})
+    alu["not_executable_on_this_host"] = alu_unsup
+    ck.log("alu_sem vs host CPU: %s" % alu)
+    if alu_bad:
+        ck.violation("C05/alu-semantics", "the value semantics behind the idiom theorems differs from the host CPU: %s" % alu_bad[0][7:300],
+                     {"cmd": "c05_harness alu %d <mnemonics> | c05 driver" % ck.seed, "line": alu_bad[0]})
+    elif rc != 0 or arc != 0 or not m or alu.get("forms_never_compared") or any("assemble-error" in u or "no-id" in u for u in alu_unsup):
+        ck.violation("C05/alu-semantics", "the comparison of alu_sem with the host CPU did not cover every tagged mnemonic/size/form: %s %s" % (alu, (err + aerr)[-200:]),
+                     {"broken": "c05_harness alu / IDIOM_SPEC"}, no_input=True)
+
     # ------------------------------------------------------------------ directed probes (recorded defects)
     features = ALL_FEATURES
     probe_results = {}
@@ -289,7 +329,7 @@ def run(ck):
     ck.log("probes: %s -> generator features %d" % (probe_results, features))
 
     # ------------------------------------------------------------------ random stream
-    nprog = 1000 if ck.tier == "quick" else 60000
+    nprog = 800 if ck.tier == "quick" else 24000
     inputs = 20 if ck.tier == "quick" else 60
     seed = ck.seed
     shard = 40 if ck.tier == "quick" else 250
@@ -304,19 +344,25 @@ def run(ck):
         results = list(ex.map(one, ranges))
 
     stats = {"programs": 0, "executed_ok": 0, "validated_ok": 0, "unsupported": 0, "emit_or_ra_error": 0, "source_instrs": 0, "target_instrs": 0,
-             "inserted_instrs": 0, "with_inserted": 0, "with_slots": 0, "with_swaps": 0, "with_trampolines": 0, "by_pressure_class": {}}
+             "inserted_instrs": 0, "with_inserted": 0, "with_slots": 0, "with_swaps": 0, "with_trampolines": 0, "with_sa_register_arguments": 0, "with_by_reference_call_arguments": 0, "with_frame_pointer": 0, "by_pressure_class": {}}
     unsupported_why = {}
     samples = []
     nontrivial = 0
     disagreements = 0
     refusal_hist = {}
-    audit_blocks = []
+    audit_blocks, sa_blocks, byref_blocks = [], [], []
     for first, count, rc, out, mrc, mres, errtxt in results:
         blocks = parse_blocks(out)
-        if len(audit_blocks) < 45:
+        if len(audit_blocks) < 24:
             for chunk in out.split("\nE\n")[:3]:
                 if "\nT - mov " in chunk and "\nX ok" in chunk:
                     audit_blocks.append(chunk + "\nE\n")
+        if len(sa_blocks) < 15 or len(byref_blocks) < 15:
+            for chunk in out.split("\nE\n"):
+                if "\nX ok" in chunk and "\nM " in chunk and len(sa_blocks) < 15 and _re.search(r"\nT - mov \S+ a\d+:", chunk):
+                    sa_blocks.append(chunk + "\nE\n")
+                if "\nX ok" in chunk and " op ARGTMP|" in chunk and len(byref_blocks) < 15:
+                    byref_blocks.append(chunk + "\nE\n")
         if rc != 0 or mrc != 0 or len(blocks) != count:
             # localise the crashing program
             bad = first + max(0, len(blocks) - 1)
@@ -346,6 +392,9 @@ def run(ck):
             stats["with_inserted"] += 1 if b["ins"] else 0
             stats["with_slots"] += 1 if b["slot"] else 0
             stats["with_swaps"] += 1 if b["swap"] else 0
+            stats["with_sa_register_arguments"] += b["sa"]
+            stats["with_by_reference_call_arguments"] += b["byref"]
+            stats["with_frame_pointer"] += 1 if " fp=1" in b["head"] else 0
             stats["with_trampolines"] += 1 if b["tramp"] else 0
             if b["ins"] or b["slot"]:
                 nontrivial += 1
@@ -378,7 +427,7 @@ def run(ck):
                                  "execute like the source program" % (seed, idx, features, mv[0], mv[1][:500]),
                                  dict(replay_cmd(seed, idx, features), validator=list(mv), broken="RaIRModel.validate (clause at the reported target pc)"), no_input=True)
     # ------------------------------------------------------------------ AArch64 stream: validator only (no AArch64 CPU here)
-    na64 = 400 if ck.tier == "quick" else 30000
+    na64 = 300 if ck.tier == "quick" else 10000
     ashard = 30 if ck.tier == "quick" else 200
     aranges = [(i, min(ashard, na64 - i)) for i in range(0, na64, ashard)]
 
@@ -444,7 +493,7 @@ def run(ck):
     ck.log("a64 stream: %s" % a64)
 
     # ------------------------------------------------------------------ x86-32 stream: validator only (32-bit code cannot run in this process)
-    nx32 = 300 if ck.tier == "quick" else 20000
+    nx32 = 300 if ck.tier == "quick" else 8000
     xranges = [(i, min(ashard, nx32 - i)) for i in range(0, nx32, ashard)]
 
     def one_x32(r):
@@ -454,7 +503,7 @@ def run(ck):
         return first, count, rc, out, mrc, mres, (err[-300:] + merr[-300:])
     with ThreadPoolExecutor(max_workers=vlib.NPROC) as ex:
         xresults = list(ex.map(one_x32, xranges))
-    x32 = {"programs": 0, "validated_ok": 0, "unsupported": 0, "source_instrs": 0, "target_instrs": 0, "inserted_instrs": 0, "with_slots": 0, "with_swaps": 0, "unencodable_byte_spill": 0}
+    x32 = {"programs": 0, "validated_ok": 0, "unsupported": 0, "source_instrs": 0, "target_instrs": 0, "inserted_instrs": 0, "with_slots": 0, "with_swaps": 0, "with_sa_register_arguments": 0, "unencodable_byte_spill": 0}
     for first, count, rc, out, mrc, mres, errtxt in xresults:
         blocks = parse_blocks(out)
         if rc != 0 or mrc != 0 or len(blocks) != count:
@@ -476,6 +525,7 @@ def run(ck):
             x32["source_instrs"] += b["nS"]; x32["target_instrs"] += b["nT"]; x32["inserted_instrs"] += b["ins"]
             x32["with_slots"] += 1 if b["slot"] else 0
             x32["with_swaps"] += 1 if b["swap"] else 0
+            x32["with_sa_register_arguments"] += b["sa"]
             if b["ins"] or b["slot"]:
                 nontrivial += 1
             xx = b["X"] or ""
@@ -549,10 +599,11 @@ def run(ck):
     # (1) histogram of the refusal reasons seen in this run (empty on a correct tree); (2) sensitivity: real accepted dumps are
     # damaged the way a wrong allocator would (drop an inserted move, reload from a slot 8 bytes further, send an inserted move
     # to another register) and validated again - what is still accepted must be explainable (dead move)
-    audit = {"accepted_sampled": len(audit_blocks), "corruptions": {}}
+    audit = {"accepted_dumps_damaged": len(audit_blocks), "with_sa_register": len(sa_blocks), "with_by_reference_arguments": len(byref_blocks), "corruptions": {}}
     arng = random.Random(ck.seed * 7 + 1)
-    for kind in ("drop-inserted-move", "shift-reload-slot", "retarget-inserted-move"):
-        texts = [t for t in (corrupt_dump(b, kind, arng) for b in audit_blocks) if t]
+    for kind in ("drop-inserted-move", "shift-reload-slot", "retarget-inserted-move", "stack-argument-through-wrong-register", "by-reference-copy-stored-elsewhere"):
+        src_blocks = sa_blocks if kind == "stack-argument-through-wrong-register" else byref_blocks if kind == "by-reference-copy-stored-elsewhere" else audit_blocks
+        texts = [t for t in (corrupt_dump(b, kind, arng) for b in src_blocks) if t]
         _, cres, _ = run_model(model, "".join(texts), timeout=900) if texts else (0, {}, "")
         hist = {}
         for v in cres.values():
@@ -578,11 +629,11 @@ def run(ck):
                  "straight-line, diamonds, loops, irreducible jumps; mul/div/shift-by-cl fixed registers, partial writes, same-register idioms, "
                  "register-or-memory operands); a program is non-trivial when the allocator inserted at least one instruction or replaced a register "
                  "operand by a frame slot; every program is validated by the extracted validator AND executed on %d inputs against the interpreter" % inputs,
-         "samples": samples, "refusal_histogram": refusal_hist, "refusal_audit": audit, "stream": stats, "a64_stream": a64, "x86_32_stream": x32, "cfg_skeletons": skel, "unsupported": unsupported_why, "probes": probe_results, "generator_features": features,
-         "level_detail": "translation validation: machine-checked validator (universal over inputs), sampled over programs",
+         "samples": samples, "refusal_histogram": refusal_hist, "refusal_audit": audit, "stream": stats, "a64_stream": a64, "x86_32_stream": x32, "cfg_skeletons": skel, "unsupported": unsupported_why, "probes": probe_results, "generator_features": features, "alu_semantics_vs_host": alu,
+         "level_detail": "translation validation: PROVED in Coq - an accepted (source, allocated) pair behaves alike for every input, every instruction semantics respecting the uses/defs and every initial register/stack content, and terminates alike; COMPARED per run - every generated program is allocated by the real allocator, validated by the extracted validator, and (x86-64) executed against a source-level interpreter; the programs are generated from VERIF_SEED plus the exhaustive list of CFG skeletons of up to 5 blocks (thorough tier: all of them)",
          "traces_validated_against_impl": stats["validated_ok"]},
-        assumptions=["theorems are about the RaIR model; the dumper (harness/c05_harness.cpp) is trusted to print the node lists, to derive uses/defs from "
-                     "InstAPI::query_rw_info + the virtual register size (partial-write rule, same-register/immediate idioms written by hand), to strip "
+        assumptions=["theorems are about the RaIR model; the dumper (harness/c05_harness.cpp) is trusted to print the node lists, to hand the raw facts of "
+                     "InstAPI::query_rw_info + the virtual register size to the extracted classify/idiom_of (proved partial-write rule; idiom classes from a generated id table, their value semantics compared with the host CPU on every run), to strip "
                      "prolog/epilog (compared with emit_prolog/emit_epilog of the final frame) and to classify inserted instructions (mov/movzx/xchg only)",
                      "instruction semantics are abstracted to uses/defs (their truth is C12's subject); flags are six pseudo registers",
                      "AArch64 (GP w/x and 128-bit vector registers, calls through a register with register and stack arguments) is validated but NOT executed (no AArch64 CPU/emulator on this host); x86-64 GP virtual registers of 1/2/4/8 bytes, calls of C helpers with register and stack arguments; 16-byte vector registers (SSE2 integer subset), AVX and AVX-512 functions with 32- and 64-byte vectors (32 vector registers), 64-bit mask registers and a re-aligned stack, annotated jump tables, calls of SysV and Windows-x64 callees; x86-32 (cdecl/fastcall; validated, not executed); or immediates as call arguments in this version (function arguments in registers and on the stack are covered)",
